@@ -132,7 +132,7 @@ func newRig(n, m int, tick time.Duration) *rig {
 	r.parent = zapcore.NewSamplerWithOptions(oc, tick, n, m, zapcore.SamplerHook(func(e zapcore.Entry, d zapcore.SamplingDecision) {
 		r.hooks = append(r.hooks, hookRec{e.Message, e.Level, d})
 	}))
-	r.child = r.parent.With([]zapcore.Field{{Key: "child", Type: zapcore.Int64Type, Integer: 1}})
+	r.child = r.parent.With(nil).With([]zapcore.Field{}).With([]zapcore.Field{{Key: "child", Type: zapcore.Int64Type, Integer: 1}})
 	return r
 }
 
@@ -235,6 +235,9 @@ func symStr(ks []key, ds []int64, s sym) string {
 // sequential part for one configuration; returns sequences run, steps, distinct ref states
 // syms == nil: the whole alphabet; otherwise only those symbol indices (the
 // deeper pass over the reduced alphabet).
+// configurations whose enumeration was cut short after more than 50 failing sequences
+var stoppedConfigs atomic.Int64
+
 func seqConfig(run *ev.Run, n, m int, tick time.Duration, maxLen int, syms []int, states map[string]bool, mu *sync.Mutex) (seqs, steps int64) {
 	ks := keys()
 	ds := deltas(tick)
@@ -250,6 +253,7 @@ func seqConfig(run *ev.Run, n, m int, tick time.Duration, maxLen int, syms []int
 	sinceFresh := 0
 	local := map[string]bool{}
 	seq := make([]sym, 0, maxLen)
+	failures := 0
 	fail := func(mode string, upto int, msg string) {
 		var parts []string
 		for _, s := range seq[:upto+1] {
@@ -257,9 +261,17 @@ func seqConfig(run *ev.Run, n, m int, tick time.Duration, maxLen int, syms []int
 		}
 		desc := fmt.Sprintf("first=%d thereafter=%d tick=%v %s: %s", n, m, tick, mode, strings.Join(parts, " "))
 		run.Report("seq:"+desc, desc+": "+msg, map[string]any{"first": n, "thereafter": m, "tick": tick.String(), "mode": mode, "sequence": parts})
+		if failures++; failures == 51 {
+			stoppedConfigs.Add(1)
+		}
 	}
 	var rec func()
 	rec = func() {
+		if failures > 50 {
+			// this configuration has failed on more than 50 sequences: the verdict is
+			// settled, enumerating the rest only repeats it (the evidence records the stop)
+			return
+		}
 		if len(seq) > 0 {
 			for mode := 0; mode < 3; mode++ {
 				// each sequence starts beyond every open window: a longer legal history
@@ -350,33 +362,34 @@ func concHandler(item string, replay []int, isReplay bool, journal func([]int)) 
 	T, _ := strconv.Atoi(f[5])
 	per, _ := strconv.Atoi(f[6])
 	tick := 100 * time.Nanosecond
-	// One sampler per driver, reused across executions (its counter table is
-	// 460 KB): every execution starts at a base time beyond all earlier windows,
-	// which is simply a longer legal history.
 	total := T * per
-	var hookN, fwdN []int
-	var hookD []zapcore.SamplingDecision
-	idx := func(name string) int {
-		if !strings.HasPrefix(name, "e") {
-			return -1
-		}
-		i, _ := strconv.Atoi(name[1:])
-		return i
-	}
-	inner := &fwdCore{onCheck: func(e zapcore.Entry) {
-		if i := idx(e.LoggerName); i >= 0 {
-			fwdN[i]++
-		}
-	}}
-	core := zapcore.NewSamplerWithOptions(inner, tick, n, m, zapcore.SamplerHook(func(e zapcore.Entry, d zapcore.SamplingDecision) {
-		if i := idx(e.LoggerName); i >= 0 {
-			hookN[i]++
-			hookD[i] |= d
-		}
-	}))
-	child := core.With([]zapcore.Field{{Key: "child", Type: zapcore.Int64Type, Integer: 1}})
 	base := int64(5_000_000)
 	mk := func() mc.Exec {
+		// A fresh sampler per execution: a sampler carried over from the previous
+		// execution would make this one depend on how that one ended (on code that
+		// fails to roll a window over the stale counts would look like a
+		// nondeterministic driver instead of a violation).
+		var hookN, fwdN []int
+		var hookD []zapcore.SamplingDecision
+		idx := func(name string) int {
+			if !strings.HasPrefix(name, "e") {
+				return -1
+			}
+			i, _ := strconv.Atoi(name[1:])
+			return i
+		}
+		inner := &fwdCore{onCheck: func(e zapcore.Entry) {
+			if i := idx(e.LoggerName); i >= 0 {
+				fwdN[i]++
+			}
+		}}
+		core := zapcore.NewSamplerWithOptions(inner, tick, n, m, zapcore.SamplerHook(func(e zapcore.Entry, d zapcore.SamplingDecision) {
+			if i := idx(e.LoggerName); i >= 0 {
+				hookN[i]++
+				hookD[i] |= d
+			}
+		}))
+		child := core.With(nil).With([]zapcore.Field{{Key: "child", Type: zapcore.Int64Type, Integer: 1}})
 		// per-entry slots: every entry writes only its own slot, so the harness
 		// itself adds no synchronisation (and no scheduling points)
 		hookN = make([]int, total)
@@ -756,7 +769,8 @@ func main() {
 		"traces_validated_against_impl": seqs.Load() + sum.Execs,
 		"evaluations":                   seqs.Load() + sum.Execs,
 		"distinct_nontrivial":           len(states) + len(sum.Outcomes),
-		"rule":                          fmt.Sprintf("sequential: every sequence of length <=%d over 11 keys (incl. a non-ASCII message and a non-ASCII collider of it, and next-level messages in the neighbouring buckets) x 6 timestamp deltas {0,tick-1,tick,tick+1,-1,-(tick+1)} for first,thereafter in 0..3 and tick in {0,1ns,10ns,1s}, on the parent, alternating parent/With-child, and alternating between two independent samplers of the same settings, real sampler in lockstep with the reference counters; concurrent: every interleaving of 2-3 threads x 1-2 same-key entries inside / straddling a window; distinct = distinct reference counter states / admitted counts", maxLen),
+		"configurations_cut_short_after_50_failing_sequences": stoppedConfigs.Load(),
+		"rule": fmt.Sprintf("sequential: every sequence of length <=%d over 11 keys (incl. a non-ASCII message and a non-ASCII collider of it, and next-level messages in the neighbouring buckets) x 6 timestamp deltas {0,tick-1,tick,tick+1,-1,-(tick+1)} for first,thereafter in 0..3 and tick in {0,1ns,10ns,1s}, on the parent, alternating parent/With-child (the child derived through a field-less With(nil), With(empty) and a With of one field), and alternating between two independent samplers of the same settings, real sampler in lockstep with the reference counters; concurrent: every interleaving of 2-3 threads x 1-2 same-key entries inside / straddling a window; distinct = distinct reference counter states / admitted counts", maxLen),
 		"samples": []any{
 			map[string]any{"config": "first=1 thereafter=2 tick=10ns", "sequence": "(info,\"a\",dt=0) (info,\"" + collider + "\",dt=9) (info,\"a\",dt=10)"},
 			map[string]any{"concurrent_item": items[0]},
